@@ -365,8 +365,16 @@ def normalise(program):
                 own.add(n.id)
             elif isinstance(n, ast.arg):
                 own.add(n.arg)
+        notes = set()  # annotations are not evaluated by a copy of the body
         for n in ast.walk(h.node):
-            if isinstance(n, ast.Name) and isinstance(n.ctx, ast.Load) and n.id not in own:
+            if isinstance(n, ast.arg) and n.annotation is not None:
+                notes |= {id(x) for x in ast.walk(n.annotation)}
+            elif isinstance(n, ast.AnnAssign):
+                notes |= {id(x) for x in ast.walk(n.annotation)}
+            elif isinstance(n, (ast.FunctionDef, ast.AsyncFunctionDef)) and n.returns is not None:
+                notes |= {id(x) for x in ast.walk(n.returns)}
+        for n in ast.walk(h.node):
+            if isinstance(n, ast.Name) and isinstance(n.ctx, ast.Load) and n.id not in own and id(n) not in notes:
                 if hasattr(_bi, n.id):
                     continue
                 if n.id in h.module.funcs or n.id in h.module.assigns or n.id in h.module.classes:
@@ -574,6 +582,7 @@ def normalise(program):
     for f in touched:
         try:
             stats["annotations_stripped"] += inline.strip_annotations(f.node)
+            stats["declared_type_tests_decided"] = stats.get("declared_type_tests_decided", 0) + inline.fold_declared_types(f.node)
             stats["assignments_simplified"] += inline.simplify_assignments(f.node)
             stats["conditionals_lifted"] += inline.lift_conditionals(f.node)
             stats["joins_threaded"] += inline.thread_joins(f.node)
